@@ -3,7 +3,7 @@ import re
 
 from lib_facts import place_str, fn_name, callee_matches
 from lib_flow import strip_refs, expr_calls, expr_str
-from roles import roles, direct_sites, callee_body
+from roles import order_wrapper_path, roles, direct_sites, callee_body
 from c01 import _site_label, d_loc
 
 EXPLANATION = (
@@ -30,14 +30,14 @@ HEAP = ("alloc::boxed::Box", "alloc::vec::Vec", "alloc::collections::BinaryHeap"
         "core::slice::IterMut", "core::slice::Iter", "alloc::collections::binary_heap::PeekMut", "core::ptr::NonNull")
 
 INLINE_TABLE = {
-    # type -> generics it may hold inline, with the reason
-    "slot_map::Slot": ("F", "the slot itself; only ever stored inside Pin<Box<[Slot<F>]>>"),
-    "futures_ordered_bounded::OrderWrapper": ("T", "#[pin] data projected by pin-project-lite; the wrapper is itself a child of an inner collection (or wraps an output)"),
-    "buffered::unordered::BufferUnordered": ("S", "#[pin] Option<S> upstream"),
-    "buffered::ordered::BufferedOrdered": ("St", "#[pin] Option<St> upstream"),
-    "buffered::for_each::ForEachConcurrent": ("St,F", "#[pin] Option<St> upstream; F is the user's closure (FnMut, not a child)"),
-    "try_buffered::TryBufferedOrdered": ("St", "#[pin] Option<St> upstream"),
-    "try_buffered::TryBufferUnordered": ("S", "#[pin] Option<S> upstream"),
+    # type (by name: moving a type to another module does not change what it holds) -> generics it may hold inline, with the reason
+    "Slot": ("F", "the slot itself; only ever stored inside Pin<Box<[Slot<F>]>>"),
+    "OrderWrapper": ("T", "#[pin] data projected by pin-project-lite; the wrapper is itself a child of an inner collection (or wraps an output)"),
+    "BufferUnordered": ("S", "#[pin] Option<S> upstream"),
+    "BufferedOrdered": ("St", "#[pin] Option<St> upstream"),
+    "ForEachConcurrent": ("St,F", "#[pin] Option<St> upstream; F is the user's closure (FnMut, not a child)"),
+    "TryBufferedOrdered": ("St", "#[pin] Option<St> upstream"),
+    "TryBufferUnordered": ("S", "#[pin] Option<S> upstream"),
 }
 
 
@@ -144,11 +144,24 @@ def r8_1(ctx, R):
                     lastp = s["rv"]["place"]["p"][-1] if s["rv"]["place"]["p"] else None
                     if pe[0] == "proj" and pe[2][-1] == "." + slots_field and lastp and lastp["k"] == "field" and \
                             lastp["ty"].startswith("core::pin::Pin<alloc::boxed::Box<["):
-                        uses = fl.uses_of_local(s["place"]["l"])
-                        for ub, ui, node in uses:
-                            okuse = ui == "term" and node["k"] == "call" and node["func"]["k"] == "const" and \
-                                callee_matches(node["func"]["fn"], r"core::pin::Pin::<.*>::as_mut$|DerefMut>::deref_mut$|Deref>::deref$")
-                            ctx.ob("R8.1", b, "slots-field-&mut-use@bb%d" % 0, okuse, b.loc(ub), "only Pin::as_mut may take &mut of the pinned box")
+                        # every use of that borrow (followed through plain moves / reborrows, e.g. into an inlined helper's
+                        # parameter) is Pin::as_mut / Deref
+                        seen_l = set()
+                        work_l = [s["place"]["l"]]
+                        while work_l:
+                            l_ = work_l.pop()
+                            if l_ in seen_l:
+                                continue
+                            seen_l.add(l_)
+                            for ub, ui, node in fl.uses_of_local(l_):
+                                if ui != "term" and node["k"] == "assign" and not node["place"]["p"] and \
+                                        ((node["rv"]["k"] == "use" and node["rv"]["op"]["k"] in ("move", "copy") and not node["rv"]["op"]["place"]["p"]) or
+                                         (node["rv"]["k"] == "ref" and [e_["k"] for e_ in node["rv"]["place"]["p"]] == ["deref"])):
+                                    work_l.append(node["place"]["l"])
+                                    continue
+                                okuse = ui == "term" and node["k"] == "call" and node["func"]["k"] == "const" and \
+                                    callee_matches(node["func"]["fn"], r"core::pin::Pin::<.*>::as_mut$|DerefMut>::deref_mut$|Deref>::deref$")
+                                ctx.ob("R8.1", b, "slots-field-&mut-use@bb%d" % 0, okuse, b.loc(ub), "only Pin::as_mut may take &mut of the pinned box")
     ok = all(re.search(r"::new$|FromIterator", x.path) for x in builders) and len(builders) >= 2
     ctx.ob("R8.1", "<crate>", "slot-map-built-only-by-constructors", ok, "", str([x.path for x in builders]))
     # inline table
@@ -164,9 +177,14 @@ def r8_1(ctx, R):
             gen = [k for k in insts if ctx.facts.type_mentions(k, lambda x, c: x["k"] == "param" and x["name"] not in ctx.facts.adts[p]["generics"])]
             ctx.ob("R8.1", p, "dequeue-result-enum-never-over-a-child", not gen, "", "instantiations %s" % insts)
             continue
-        want = set(INLINE_TABLE.get(p, ("", ""))[0].split(",")) - {""}
-        ctx.ob("R8.1", p, "inline-holder-in-table", p in INLINE_TABLE and s <= want, "", "holds inline %s; table allows %s (%s)" % (
-            sorted(s), sorted(want), INLINE_TABLE.get(p, ("", "not in table"))[1]))
+        key = p.split("::")[-1]
+        if p == R.slot_enum[0]:
+            key = "Slot"            # the slot enum, located by role
+        elif p == order_wrapper_path(ctx.facts):
+            key = "OrderWrapper"    # the order wrapper, located by shape
+        want = set(INLINE_TABLE.get(key, ("", ""))[0].split(",")) - {""}
+        ctx.ob("R8.1", p, "inline-holder-in-table", key in INLINE_TABLE and s <= want, "", "holds inline %s; table allows %s (%s)" % (
+            sorted(s), sorted(want), INLINE_TABLE.get(key, ("", "not in table"))[1]))
     ctx.floor("R8.1", "inline-holders", sum(1 for p_, s in ig.items() if s and "::_::" not in p_), 5)
     # manual Unpin impls
     m = 0
